@@ -23,7 +23,7 @@ from verifkit import pat
 from verifkit.absrun import Obj, Runner, StandIn
 from verifkit.core import Outcome
 from verifkit.dim import dims
-from verifkit.finite import Undecided, compared_constants, partition_reps
+from verifkit.finite import Raised, Undecided, compared_constants, partition_reps
 from rules import C10
 
 ASSUMPTIONS = [
@@ -218,21 +218,9 @@ def r02_3(ctx):
     quantifier_rule(ctx, out, "shape.DisjointShape._contains_point", "exists", "subshapes", "contains_point", ["point", "boundary"])
     quantifier_rule(ctx, out, "shape.ConnectedShape._contains_jordan", "forall", "subshapes", "contains_jordan", ["jordan", "boundary"])
     quantifier_rule(ctx, out, "shape.DisjointShape._contains_jordan", "exists", "subshapes", "contains_jordan", ["jordan", "boundary"])
-    # SimpleShape._contains_jordan: every nested contains_point call forwards `boundary`
-    fn = ctx.fn("shape.SimpleShape._contains_jordan")
-    defs = pat.local_defs(fn)
-    calls = [c for c in ast.walk(fn.node) if isinstance(c, ast.Call) and isinstance(c.func, ast.Attribute)
-             and c.func.attr in ("contains_point", "_contains_point")]
-    if len(calls) < 1:
-        out.bad(fn.qname, "no point-containment test of the sampled curve points", where=fn.where())
-    for c in calls:
-        flag = c.args[1] if len(c.args) > 1 else next((k.value for k in c.keywords if k.arg == "boundary"), None)
-        o = pat.param_origin(fn, flag, defs) if flag is not None else None
-        if o != "boundary":
-            out.bad(fn.qname, "a sampled curve point is tested without forwarding the caller's boundary flag",
-                    where=fn.where(c), detail=f"`{U(c)[:60]}`")
-        else:
-            out.ok(fn.qname, f"`{U(c)[:40]}` forwards boundary", where=fn.where(c))
+    # SimpleShape._contains_jordan: every sampled point is tested with the caller's flag (abstract run, see R03.4)
+    from rules import C03
+    C03.contains_jordan_world(ctx, out, ("flag",))
     # the public wrappers hand the flag on
     for name, inner, params in (("contains_point", "_contains_point", ["point", "boundary"]),
                                 ("contains_jordan", "_contains_jordan", ["jordan", "boundary"])):
